@@ -20,6 +20,8 @@ from props import c10 as C10
 PARTS = [1, 2, 3, 4, 5, 6, 7, 8]
 EPS = 2.0 ** -52
 DIST_TOL = 1e-3
+DELTA_UNDERFLOW = 1e-290  # Delta below this: lambda = 1/Delta and lambda*d*d overflow
+STALE_DELTA = 1e-6        # Delta at the start of a later call with a shared strategy object
 DRIFT_TOL = 1e-9          # numerical differentiation perturbs/restores the arguments in place
 STATUS = {0: 'Ftol', 1: 'Ptol', 2: 'MaxIters'}
 
@@ -93,10 +95,10 @@ def lin_exact(meta):
     def cost2(x):
         return sum((sum(A[i][j] * x[j] for j in range(n)) - b[i]) ** 2 for i in range(m))
     costs = None
-    if 'cb_args' in meta:
+    if 'cb_args' in meta and all(math.isfinite(dec(w, 'f64')) for a in meta['cb_args'] for w in a):
         costs = [cost2([fr(w) for w in a]) for a in meta['cb_args']]
     dist = None
-    if xs is not None:
+    if xs is not None and all(math.isfinite(dec(w, 'f64')) for w in meta['final_args']):
         xf = [fr(w) for w in meta['final_args']]
         dist = math.sqrt(float(sum((a - c) ** 2 for a, c in zip(xf, xs))))
     return xs, costs, dist
@@ -131,6 +133,10 @@ class C09:
                    'distance to the minimiser is audited only when ftol, ptol <= 1e-6 (the defaults) on the families flagged '
                    'well-conditioned (cond(A) <= 20 for linear least squares; alignment with noise <= 1e-2)']
 
+    def prebuild(self):
+        """build the harness binaries (called by tools/prebuild.py during setup)"""
+        return vlib.build_harnesses(specs())
+
     # ------------------------------------------------------------------ generation
     def gen(self, ctx, n, seed=None):
         bins = vlib.build_harnesses(specs())
@@ -152,7 +158,7 @@ class C09:
     # ------------------------------------------------------------------ checks
     def check_runs(self, ctx, runs):
         findings, broken = [], []
-        cov = {'families': {}, 'modes': {}, 'strategies': {}, 'status': {}, 'strata': {}, 'rho_classes': {},
+        cov = {'regions': {}, 'families': {}, 'modes': {}, 'strategies': {}, 'status': {}, 'strata': {}, 'rho_classes': {},
                'decisions': {'accepted_take_step': 0, 'accepted_pred_le_0': 0, 'accepted_zero_residual': 0, 'rejected': 0},
                'pred_le_0_with_nonzero_dx': 0, 'worst_cost_increase_over_tol': 0.0, 'max_numerical_drift': 0.0,
                'shared_strategy_runs': 0}
@@ -191,11 +197,16 @@ class C09:
             ipos = 0
             for m in r.meta:
                 K = int(dec(words[pos + 3], 'f64'))
+                m['_min_delta'] = float('inf')
+                m['_first_delta'] = dec(impl[ipos], 'f64') if K > 0 else float('nan')
                 for k in range(K):
                     o = pos + 4 + 5 * k
                     rn, fx, ln, dd = (dec(words[o + j], 'f64') for j in range(4))
                     dbef, rho, take, acc, daft = (dec(impl[ipos + j], 'f64') for j in range(5))
                     ipos += 5
+                    if dbef == dbef:
+                        m['_min_delta'] = min(m['_min_delta'], dbef)
+                    m['_last_acc'] = acc
                     n_iter_cmp += 1
                     cls = 'nan' if math.isnan(rho) else ('inf' if math.isinf(rho) else ('<=0' if rho <= 0 else '>0'))
                     cov['rho_classes'][cls] = cov['rho_classes'].get(cls, 0) + 1
@@ -210,12 +221,21 @@ class C09:
                                 cov['pred_le_0_with_nonzero_dx'] += 1
                     else:
                         cov['decisions']['rejected'] += 1
+                m['_K'] = K
                 ipos += 3
                 pos += 4 + 5 * K
             # ---- property audits per call
             for m in r.meta:
                 fam = m['family']
-                key0 = {'family': fam, 'mode': m['mode'], 'strat': m['strat']}
+                # region: the trust-region size underflowed (lambda = 1/Delta overflows) during this call
+                reg = 'generic'
+                if m.get('_min_delta', 1.0) < DELTA_UNDERFLOW:
+                    reg = 'delta_underflow'
+                elif m['call'] > 0 and m.get('_first_delta', 1.0) < STALE_DELTA:
+                    # a second call inherits a tiny Delta from the strategy object used by the first call
+                    reg = 'stale_strategy_delta'
+                key0 = {'family': fam, 'mode': m['mode'], 'strat': m['strat'], 'region': reg}
+                cov['regions'][reg] = cov['regions'].get(reg, 0) + 1
                 cov['families'][fam] = cov['families'].get(fam, 0) + 1
                 cov['modes'][m['mode']] = cov['modes'].get(m['mode'], 0) + 1
                 cov['strategies'][m['strat']] = cov['strategies'].get(m['strat'], 0) + 1
@@ -245,6 +265,11 @@ class C09:
                     add('iter_le_max_iter', m['iter'], m['max_iter'], 'more than max_iter iterations')
                 if m['status'] == 2 and m['iter'] != m['max_iter']:
                     add('MaxIters_iff', m['iter'], m['max_iter'], 'status MaxIters although the loop ended before max_iter')
+                if m['iter'] != m.get('_K', m['iter']):
+                    add('iter_count', m['iter'], m.get('_K'), 'reported iter differs from the number of strategy updates observed')
+                if m['status'] in (0, 1) and not (m.get('_K', 0) > 0 and m.get('_last_acc') == 1.0):
+                    add('MaxIters_iff', m['status'], 2, 'Ftol/Ptol reported although the last iteration did not accept a step '
+                        '(the convergence tests are only evaluated after an accepted step)')
                 if m['ncb'] > 1 + m['iter']:
                     add('callback_count', m['ncb'], 1 + m['iter'], 'more callbacks than 1 + iterations')
                 # (2) monotone cost over the callback points, float-evaluated f
@@ -309,7 +334,11 @@ class C09:
                 broken.append({'what': 'correspondence', 'name': f'T1 opt_replay {k} (decision logic: implementation vs Lean state machine)',
                                'count': len(bs), 'first': bs[0]})
         # ---- the C10 contract on the actual solver calls
-        tr_n, tr_worst_be = 0, 0.0
+        tr_n, tr_worst_be, tr_worst_descent = 0, 0.0, -1.0
+        cap = 1500 if ctx['tier'] == 'quick' else 6000
+        if len(tr_lines) > cap:      # exact rational audits are the expensive part: a seeded subsample
+            import random
+            tr_lines = random.Random(ctx['seed']).sample(tr_lines, cap)
         if tr_lines:
             tls = [(i, C10.TrLine(l)) for i, l in tr_lines]
             tls = [(i, l) for i, l in tls if l.ok_shape()]
@@ -320,9 +349,16 @@ class C09:
                 v = [dec(w, 'f64') for w in rep.split()]
                 tr_n += 1
                 tr_worst_be = max(tr_worst_be, max(v[1:5]))
+                tr_worst_descent = max(tr_worst_descent, v[5])
                 for (chk, where, err, tol, what) in C10.judge(l, v):
-                    if chk in ('dense_vs_sparse', 'dphi', 'colwise_norm'):
-                        continue   # C10's own business; here only what the C09 argument depends on
+                    if chk in ('dense_vs_sparse', 'dphi', 'colwise_norm', 'normal_equations'):
+                        continue   # C10's own business; here only what the C09 argument depends on (zero step, lambda, finiteness)
+                    if chk == 'descent':
+                        # a rounding-level excess (r nearly orthogonal to range J, see C10) is irrelevant to C09: the loop
+                        # evaluates pred_red in floating point anyway and the cost sequence is audited directly
+                        if err <= 1e-12:
+                            continue
+                        chk, tol = 'descent_gross', 1e-12
                     findings.append({'property': 'C09', 'key': {'check': 'c10_contract_insitu/' + chk, 'family': ident['family'],
                                                                 'mode': ident['mode'], 'strat': ident['strat']},
                                      'err': err, 'tol': tol, 'what': 'solver call inside minimize: ' + what, 'run': ident, 'line': l.raw})
@@ -330,13 +366,13 @@ class C09:
                     'iterations_replayed': n_iter_cmp, 't1_breaks': len(t1_breaks), 'recon_breaks': len(recon_breaks),
                     'monotonicity_pairs_checked': mono_pairs, 'runs_recomputed_exactly': exact_checked,
                     'distance_checked': dist_checked, 'worst_distance_when_converged': worst_dist,
-                    'insitu_solver_calls_audited': tr_n, 'insitu_worst_backward_error': tr_worst_be,
+                    'insitu_solver_calls_audited': tr_n, 'insitu_worst_backward_error': tr_worst_be, 'insitu_worst_descent_excess': tr_worst_descent,
                     'traces_validated_against_impl': len(runs)})
         return {'coverage': cov, 'findings': findings, 'broken': broken}
 
     # ------------------------------------------------------------------ entry points
     def explore(self, ctx):
-        n = 24 if ctx['tier'] == 'quick' else 400
+        n = 100 if ctx['tier'] == 'quick' else 1500
         return self.check_runs(ctx, self.gen(ctx, n * ctx.get('budget', 1)))
 
     def search(self, ctx, broken):
